@@ -325,6 +325,9 @@ impl Ctl {
         }
         let t = en[pos];
         let at = st.threads[t].parked.expect("enabled thread is parked");
+        if std::env::var_os("VERIF_SCHED_TRACE").is_some() {
+            eprintln!("step {} en={:?} -> t{} at {:?}", st.step, en, t, at);
+        }
         let parked = st.threads.iter().map(|t| if t.exited { None } else { t.parked }).collect();
         if let Some(f) = &self.step_log {
             use std::io::Write;
@@ -535,7 +538,9 @@ pub fn run<R: Send + 'static>(cfg: Config, body: impl FnOnce(Arc<Ctl>) -> R + Se
                 since = Instant::now();
             } else if since.elapsed() > Duration::from_secs(5) {
                 let parked = st.parked_list();
-                st.halt = Some(Halt::Timeout(format!("no hook call for 5 s; running={:?} parked={:?} unregistered={:?}", st.running, parked, st.threads.iter().filter(|t| !t.registered).count())));
+                let msg = format!("no hook call for 5 s; running={:?} last={} parked={:?} unregistered={:?} steps={} mirror={:?}", st.running, st.last, parked, st.threads.iter().filter(|t| !t.registered).count(), st.step, st.mirror);
+                eprintln!("scheduler: {msg}");
+                st.halt = Some(Halt::Timeout(msg));
                 break;
             }
             let (g, _) = ctl.cv.wait_timeout(st, Duration::from_millis(if controlled { 100 } else { 1 })).unwrap();
@@ -583,6 +588,7 @@ pub struct Stats {
     pub terminal_states: u64,
     pub max_preemptions_seen: usize,
     pub stopped_early: bool,
+    pub out_of_time: bool,
 }
 
 /// A timed-out execution (no hook call for 5 s) is only believed if it times out three times in a
@@ -606,6 +612,7 @@ pub fn exec_retrying<R>(exec: &mut impl FnMut(&[usize]) -> Exec<R>, prefix: &[us
 /// false to stop the search.
 pub fn explore_bounded<R>(
     bound: usize,
+    deadline: Option<Instant>,
     roots: Vec<Vec<usize>>,
     mut exec: impl FnMut(&[usize]) -> Exec<R>,
     mut check: impl FnMut(&Exec<R>, &[usize]) -> bool,
@@ -614,6 +621,11 @@ pub fn explore_bounded<R>(
     let mut stack: Vec<Vec<usize>> = roots;
     stack.reverse();
     while let Some(prefix) = stack.pop() {
+        if deadline.map(|d| Instant::now() > d).unwrap_or(false) {
+            stats.stopped_early = true;
+            stats.out_of_time = true;
+            break;
+        }
         let x = exec_retrying(&mut exec, &prefix);
         stats.executions += 1;
         stats.max_depth = stats.max_depth.max(x.steps.len());
@@ -655,6 +667,7 @@ pub fn explore_bounded<R>(
 /// program points + harness observations) is expanded exactly once; a schedule prefix whose end
 /// state was already seen is not extended.
 pub fn explore_states<R>(
+    deadline: Option<Instant>,
     roots: Vec<Vec<usize>>,
     max_states: u64,
     mut exec: impl FnMut(&[usize]) -> Exec<R>,
@@ -666,6 +679,11 @@ pub fn explore_states<R>(
     let mut stack: Vec<Vec<usize>> = roots;
     stack.reverse();
     while let Some(prefix) = stack.pop() {
+        if deadline.map(|d| Instant::now() > d).unwrap_or(false) {
+            stats.stopped_early = true;
+            stats.out_of_time = true;
+            break;
+        }
         let x = exec_retrying(&mut exec, &prefix);
         stats.executions += 1;
         stats.max_depth = stats.max_depth.max(x.steps.len());
